@@ -85,6 +85,9 @@ func (H) Generate(prop, tier string, seed uint64) *simkit.Plan {
 	p.SetKnob("batch_age_ms", int64([]int{20, 200, 2000}[r.Intn(3)]))
 	p.SetKnob("hold", int64(r.Intn(2)))
 	p.SetKnob("check_ms", int64([]int{50, 500}[r.Intn(2)]))
+	// seeded scheduling points at lock acquisitions (simrt overlay): without them
+	// two consecutive acquisitions by one goroutine are never separated on one P
+	p.SetKnob("lock_yield", int64([]int{0, 30, 100, 300, 600}[r.Intn(5)]))
 	burst := r.Chance(0.2) // many alerts: the list is reset above 1000 entries
 	n := r.Range(8, 60)
 	ops := opsOf[p.Scenario]
